@@ -179,6 +179,13 @@ Theorem C01_refine_ensure_capacity : forall (rk : var -> N) x cap c, c_slack_ok 
   to_mpoly None (c_ensure_capacity x cap c) = to_mpoly None c.
 Proof. exact c_ensure_capacity_refines. Qed.
 Print Assumptions C01_refine_ensure_capacity.
+(* shift by a power of the main variable; s0 is the output after coefficient_assign (a copy of the operand, or the
+   operand itself WITH ITS SLACK when the output is the operand): this is the operation that loses terms with the
+   pre-repair ensure_capacity (History_C01.C01_shl_in_place_prefix_refuted) *)
+Theorem C01_refine_shl : forall (rk : var -> N) s0 x n, c_slack_ok None s0 ->
+  to_mpoly None (c_shl None s0 x n) = mp_mul (to_mpoly None s0) (mp_var_pow x (N.of_nat n)).
+Proof. exact c_shl_refines. Qed.
+Print Assumptions C01_refine_shl.
 (* the variable orders of libpoly are injective rank functions *)
 Theorem C01_order_rank_injective : forall ord x y, rk_of ord x = rk_of ord y -> x = y.
 Proof. exact rk_of_inj. Qed.
@@ -218,7 +225,14 @@ Theorem C01_refine_add_monomial_Zm : forall M, (0 < M)%SZ -> forall rk (R : comR
 Proof. exact c_add_om_refines_Zm. Qed.
 Print Assumptions C01_refine_add_monomial_Zm.
 
-(* what is NOT proved about the faithful model (mul, add_mul, sub_mul, pow, shl, derivative, reorder refine the
+Theorem C01_refine_shl_Zm : forall M, (0 < M)%SZ -> forall (rk : var -> N) (R : comRingType), zr R M = 0 ->
+  forall (rho : var -> R) s0 x n, c_slack_ok (Some M) s0 ->
+  mp_den rho (to_mpoly (Some M) (c_shl (Some M) s0 x n)) =
+  mp_den rho (mp_reduce (Some M) (mp_mul (to_mpoly (Some M) s0) (mp_var_pow x (N.of_nat n)))).
+Proof. exact c_shl_refines_Zm. Qed.
+Print Assumptions C01_refine_shl_Zm.
+
+(* what is NOT proved about the faithful model (mul, add_mul, sub_mul, pow, derivative, reorder refine the
    reference; tied by the differential run of both models on every generated case instead) *)
 Definition C01_run_refines_full_statement : Prop :=
   forall K F ord pool ops s', pool_ok K (ord, pool) -> c_run K F (ord, pool) ops = Some s' ->
